@@ -55,6 +55,30 @@ Section History.
   Definition accepted (ops : list att_op) : list pev :=
     flat_map (fun o => match o with AoSubmit e => if hashable (pe_proof e) then [e] else [] | _ => [] end) ops.
 
+  (** The consensus module's end-blocker for one queued request added at height [added]: first the
+      attestation run, THEN (every [prune_every]-th block) the pruning of requests older than [prune_age]
+      blocks — a request that the run of this very block declares is not pruned. *)
+  Definition prune_due (added h : Z) : bool :=
+    (h mod G.prune_every =? 0) && (G.prune_age <? h - added).
+
+  Record mod_state := { ms_att : att_state; ms_pruned : bool }.
+  Definition mod_init : mod_state := {| ms_att := att_init; ms_pruned := false |}.
+
+  Definition mod_submit (s : mod_state) (e : pev) : mod_state :=
+    if ms_pruned s then s else {| ms_att := att_step (ms_att s) (AoSubmit e); ms_pruned := false |}.
+
+  Definition end_block (added : Z) (s : mod_state) (sn : snapshot) (ord : list (@group K) -> list (@group K)) (h : Z) : mod_state :=
+    if ms_pruned s then s
+    else match as_won (ms_att s) with
+         | Some _ => s
+         | None =>
+           let a := att_step (ms_att s) (AoProcess sn ord) in
+           match as_won a with
+           | Some _ => {| ms_att := a; ms_pruned := false |}
+           | None => {| ms_att := a; ms_pruned := prune_due added h |}
+           end
+         end.
+
   Definition op_ok (o : att_op) : Prop :=
     match o with
     | AoSubmit e => wf_proof (pe_proof e)
